@@ -260,6 +260,29 @@ pub fn test_case(c: &ServeCase, stats: &mut Stats) -> Result<(), String>
         }
         hostile.push(v.into_iter().collect());
     }
+    // names that a decoder written with character ranges might take for a second spelling of a cached hash: a
+    // character just outside the alphabet read as digit 62+k, compensated in the next digit ("[" = 'Z'+1 ...)
+    for name in cache.keys().take(4)
+    {
+        let digits: Vec<usize> = name.bytes().map(|c| b62::ALPHABET.iter().position(|a| *a == c).unwrap_or(0)).collect();
+        for (family, chars) in [("after-Z", "[\\]^_`"), ("after-z", "{|}~"), ("after-9", ":;<=>?@")]
+        {
+            let _ = family;
+            for (k, ch) in chars.chars().enumerate()
+            {
+                if let Some(i) = (0..42).find(|i| digits[*i] == k && digits[*i + 1] >= 1)
+                {
+                    let mut v: Vec<char> = name.chars().collect();
+                    v[i] = ch;
+                    v[i + 1] = b62::ALPHABET[digits[i + 1] - 1] as char;
+                    let alias: String = v.into_iter().collect();
+                    // only characters that may appear verbatim in a URI path segment reach the server's decoder
+                    if !"_~:;=@".contains(ch) { continue; }
+                    hostile.push(alias);
+                }
+            }
+        }
+    }
     for h in hostile.iter()
     {
         for target in [format!("/files/{}", h), format!("/rules/{}/{}", h, valid), format!("/rules/{}/{}", some_rule.clone().unwrap_or(valid.clone()), h)]
